@@ -8,6 +8,14 @@ hook_commits = subprocess.run(["git", "-C", "/repo", "log", "--format=%H", "--gr
 M_TECH = "symbolic execution of rustc MIR + z3 (SMT over reals), bounded; counterexamples replayed on the native build"
 M_NOTE = " f64 is modelled as exact reals (NaN/inf excluded by assumption; divisors proved non-zero on accepted paths); rounding is outside the claim. Trusted base: rustc MIR dump, the mir2smt interpreter (validated per harness against the real build on sampled vectors), z3."
 CLAIMED = {
+ "C12": dict(
+  text="Bounded symbolic checking of the real code. Engine M executes the MIR of SetSpeedTrainSim::solve_step end to end (consist calls on a one-DummyLoco consist, update_res, solve_required_pwr, set_link_and_offset) on a symbolic train state, irregular symbolic time stamps and speeds and a path of symbolic link points, and of train_state::set_link_and_offset alone on 2-6 link points with the position anywhere including exactly on link boundaries. z3 decides: saved time = previous stamp + saved step size, step size = trace step, the front advances by step size * mean of the speeds before and after, total distance grows by |position change|, rear position = front position - train length, and the reported front link and in-link offset identify exactly the front position (base offset + in-link offset = position, 0 < in-link offset, link = the one containing the position).",
+  note="One step from an arbitrary state (inductive). The kinematic lines of SpeedLimitTrainSim::solve_required_pwr (time += dt; offset += dt*v_avg; total_dist) are not yet executed by a harness: its force solution involves the braking-curve lookup (planned with C03); the same offset_back defect was fixed there by inspection. Found and fixed: saved offset_back lagged the front by one step (known_findings.json)." + M_NOTE,
+  technique=M_TECH, design_ref="DESIGN.md section 4 (C12)"),
+ "C14": dict(
+  text="Bounded symbolic checking of the real code. Engine M executes the MIR of SetSpeedTrainSim::solve_required_pwr (symbolic consist limits, resistances, masses, trace of 2-4 points with irregular time stamps) and of the whole SetSpeedTrainSim::solve_step. z3 decides: pwr_res = total resistance * mean speed, pwr_accel = compound mass * (v_i^2 - v_{i-1}^2) / (2 * the trace's own dt), state.dt = trace dt, pwr_whl_out = inertia + resistance clipped to [-max(dyn_brake_max,0), min(published traction limit, max(0, previous power + rate*previous dt))], energies accumulate that power times dt with the positive/negative split on its sign, saved time and speed equal the trace, and an accepted step implies non-negative speed at both samples of the step.",
+  note="solve_step runs on a consist of one DummyLoco (unlimited power) so that every demand is accepted and counterexamples replay on the real build; utils::almost_eq is modelled with its IEEE behaviour for 0/0. Found and fixed: a negative first sample was accepted (known_findings.json)." + M_NOTE,
+  technique=M_TECH, design_ref="DESIGN.md section 4 (C14)"),
  "C07": dict(
   text="Bounded symbolic checking of the real code. Engine M executes the MIR of method::Strap::update_res with everything it calls (path_res::Strap::calc_res, LinSearchHint::calc_idx, calc_res_strap, PathResCoeff::calc_res_val, the four Basic::calc_res kinds, TrainState::mass) on a symbolic train state, symbolic resistance coefficients and symbolic grade / curve profiles, for every admissible pair of cached indices (enumerated) and each search direction (Fwd, Bwd, Unk). z3 decides for all inputs: weight_static = g*mass_static, bearing/rolling/Davis-B/aero terms equal their definitions, grade and curve resistance equal weight*(cumulative value at front - at rear)/length against an independent piecewise-linear oracle, elev_front and grade_front/grade_back are the track's values at the front / rear, offset_back = offset - length. One call from arbitrary admissible cached indices is an inductive step for the index cache, so runs of any length are covered.",
   note="Profiles of 2-5 points with strictly increasing offsets and res_net the running integral of res_coeff (what PathTpc::extend builds; C06 planned). Cached indices must not be ahead of (forward search) / behind (backward search) the true ones: that is the documented precondition of calc_idx. method::Point and the aggregation of per-car coefficients in TrainSimBuilder::make_train_sim_parts are not covered. Found and fixed: grade_back used the front coefficient (known_findings.json)." + M_NOTE,
